@@ -290,6 +290,43 @@ double Interpolation::Integrate(double x_1, double x_2)
 	return sign * integral;
 }
 
+// Values of the interpolated function which can be extremal on [x_1,x_2] outside the tabulated domain: In the extrapolation zones the edge polynomials are continued beyond the boundary knots and are not necessarily monotone there.
+std::vector<double> Interpolation::Extrapolation_Zone_Values(double x_1, double x_2)
+{
+	std::vector<double> values;
+	for(int edge = 0; edge < 2; edge++)
+	{
+		unsigned int j	  = (edge == 0) ? 0 : N - 2;
+		double x_boundary = (edge == 0) ? x_values[0] : x_values[N - 1];
+		double x_low	  = (edge == 0) ? x_1 : std::max(x_1, x_boundary);
+		double x_high	  = (edge == 0) ? std::min(x_2, x_boundary) : x_2;
+		if(x_low >= x_high)
+			continue;
+		// The boundary knot
+		if(x_1 <= x_boundary && x_boundary <= x_2)
+			values.push_back(prefactor * function_values[(edge == 0) ? 0 : N - 1]);
+		// Stationary points of the edge polynomial, i.e. roots of 3 a t^2 + 2 b t + c with t = x - x_j.
+		std::vector<double> roots;
+		double discriminant = b[j] * b[j] - 3.0 * a[j] * c[j];
+		if(a[j] == 0.0 && b[j] != 0.0)
+			roots.push_back(-c[j] / 2.0 / b[j]);
+		else if(a[j] != 0.0 && discriminant >= 0.0)
+		{
+			double q = -(b[j] + ((b[j] < 0.0) ? -sqrt(discriminant) : sqrt(discriminant)));
+			roots.push_back(q / 3.0 / a[j]);
+			if(q != 0.0)
+				roots.push_back(c[j] / q);
+		}
+		for(auto& root : roots)
+		{
+			double x = x_values[j] + root;
+			if(x > x_low && x < x_high)
+				values.push_back(prefactor * (a[j] * pow(root, 3.0) + b[j] * pow(root, 2.0) + c[j] * root + d[j]));
+		}
+	}
+	return values;
+}
+
 double Interpolation::Local_Minimum(double x_1, double x_2)
 {
 	libphysica::Check_For_Error(x_2 < x_1, "Interpolation::Local_Minimum()", "Faulty order of arguments.");
@@ -297,6 +334,8 @@ double Interpolation::Local_Minimum(double x_1, double x_2)
 	double f_right = Interpolate(x_2);
 	int i_1		   = Locate(x_1);
 	int i_2		   = Locate(x_2);
+	for(auto& value : Extrapolation_Zone_Values(x_1, x_2))
+		f_left = std::min(f_left, value);
 	if(i_1 == i_2)
 		return std::min(f_left, f_right);
 	else
@@ -316,6 +355,8 @@ double Interpolation::Local_Maximum(double x_1, double x_2)
 	double f_right = Interpolate(x_2);
 	int i_1		   = Locate(x_1);
 	int i_2		   = Locate(x_2);
+	for(auto& value : Extrapolation_Zone_Values(x_1, x_2))
+		f_left = std::max(f_left, value);
 	if(i_1 == i_2)
 		return std::max(f_left, f_right);
 	else
